@@ -217,7 +217,7 @@ impl Property for C01 {
     fn budget(&self, tier: Tier) -> Budget {
         match tier {
             Tier::Quick => Budget { cases: 40000, min_len: 8, max_len: 200 },
-            Tier::Thorough => Budget { cases: 1200000, min_len: 8, max_len: 260 },
+            Tier::Thorough => Budget { cases: 800000, min_len: 8, max_len: 260 },
         }
     }
 
